@@ -325,25 +325,37 @@ def value_stream(ctx):
         nt = rng.randrange(1, 9)
         one = rng.choice([0, 0, 1, 2]) if rng.random() < 0.7 else None      # one dtype for all requests (model + oracle) or mixed (oracle)
         reqs = [(one if one is not None else rng.choice([0, 0, 0, 2]), rng.choice([0, 1, 1, 2, 3, 5, 9])) for _ in range(nt)]   # (dtype tag, numel)
+        # the SAME tensor object submitted again (e.g. sum and mean of one tensor, a tied factor): a request of its own.
+        # Only with a capacity that keeps both requests in one bucket: a tensor alone in its bucket is reduced in place
+        # (flattening a single tensor is a view), exactly as the per-tensor all-reduce does, so what a second submission
+        # of the same object contributes would depend on timing in both.
+        src = list(range(nt))
+        for tid in range(1, nt):
+            if cap == 10**6 and rng.random() < 0.35:
+                reqs[tid] = reqs[tid - 1]
+                src[tid] = src[tid - 1]
 
-        def data(rank, tid, n):
+        def data(rank, tid, n, src=src):
+            tid = src[tid]
             return [(tid + 1) * 10 + (rank + 1) * 3 + e for e in range(n)]      # sums stay below 2048: exact in float16
 
-        def prog(rank, members=members, cap=cap, reqs=reqs):
+        def prog(rank, members=members, cap=cap, reqs=reqs, src=src):
             import torch.distributed as dist
             g = dist.new_group(members)
             if rank not in members:
                 return None
             tdc = TorchDistributedCommunicator(bucket_cap_mb=(cap + 0.5) / 1e6)
             futs = []
+            made = {}
             for tid, (dt, n) in enumerate(reqs):
-                t = torch.tensor(data(rank, tid, n), dtype=torch.float64).to(DT[dt]).reshape(n)
-                futs.append(tdc.allreduce_bucketed(t, group=g))
+                if src[tid] not in made:
+                    made[src[tid]] = torch.tensor(data(rank, tid, n), dtype=torch.float64).to(DT[dt]).reshape(n)
+                futs.append(tdc.allreduce_bucketed(made[src[tid]], group=g))
             tdc.flush_allreduce_buckets()
             return [[int(v) for v in (f.wait() if not isinstance(f, torch.Tensor) else f).to(torch.float64).tolist()] for f in futs]
 
         wd, res = simdist.run_world(world, prog, seed=ctx.seed * 523 + trial, stickiness=rng.choice([0.0, 0.5, 0.9]))
-        case = {'world': world, 'group': members, 'cap_bytes': cap, 'requests(dtype,numel)': reqs, 'schedule_seed': ctx.seed * 523 + trial}
+        case = {'world': world, 'group': members, 'cap_bytes': cap, 'requests(dtype,numel)': reqs, 'same_tensor_as': src, 'schedule_seed': ctx.seed * 523 + trial}
         if wd.exceptions or wd.stalled or wd.errors:
             ctx.fail(f'run failed: exc={wd.exceptions} stalled={wd.stalled} errors={wd.errors[:2]}', case, 'value-run')
             continue
